@@ -2,8 +2,9 @@
 From Esc Require Import Examples proofs.ScanTaint proofs.ScanRun proofs.ScanRunTheorems.
 
 (* for every scan (node names of the view distinct): the nodes that receive the taint are distinct members of the
-   view's untainted class; if any node is tainted, at least min_nodes untainted ones remain; and when the scan sees
-   fewer untainted nodes than the minimum (node count within bounds) it writes no taint at all.  min is the
+   view's untainted class; if any node is tainted, at least min_nodes of the nodes listed untainted remain so — neither
+   written by this scan nor found already tainted when it read them back from the API server (a lagging lister); and
+   when the scan sees fewer untainted nodes than the minimum (node count within bounds) it writes no taint at all.  min is the
    effective minimum: the cloud group's own when both options are 0 (effective_min_max). *)
 Theorem c03_taint_bound : forall now gdry api g a nodes pods,
   let x := ctx_of now gdry api g a nodes pods in
@@ -24,6 +25,13 @@ Theorem c03_receivers : forall x mn st unt want,
   zlen T <= Z.max 0 (clamp_n mn unt want) /\ (T <> [] -> mn <= zlen unt - zlen T).
 Proof. exact down_targets. Qed.
 Print Assumptions c03_receivers.
+
+(* written plus found-already-tainted stay within the clamp, for every untainted list, rate, API state and oracle *)
+Theorem c03_found_counts : forall x mn st unt want,
+  let calls := fst (fst (scale_down_taint (x_env x) (x_opts x) mn (x_dry x) st unt want)) in
+  taint_ok_targets x calls <> [] -> mn <= zlen unt - zlen (taint_ok_targets x calls) - zlen (found_tainted x calls).
+Proof. exact down_found. Qed.
+Print Assumptions c03_found_counts.
 
 (* auto-discovery: with min_nodes = max_nodes = 0 the bounds are the cloud group's *)
 Theorem c03_autodiscover : forall o a, o_min o = 0 -> o_max o = 0 -> effective_min_max o a = (a_min a, a_max a).
